@@ -15,7 +15,7 @@ import (
 type C06Case struct {
 	Doc       Doc   `json:"doc"`
 	Tracks    []int `json:"tracks"`
-	MayRefuse bool  `json:"may_refuse,omitempty"` // contains silences too long for a MIDI delta time: refusing the piece is fine, writing it with a wrong length is not
+	MayRefuse bool  `json:"may_refuse,omitempty"` // generated with very long silences (statistics only): refusing is fine exactly when the piece is longer than a MIDI delta time can hold (beyondDelta), writing it with a wrong length never is
 }
 
 func rawEvents(song *smfread.Song) (evs []string, eots []int64) {
@@ -38,7 +38,7 @@ func checkC06(c C06Case) *Violation {
 	ctx := fmt.Sprintf("\nargs=%v\n%s", d.Flags.Argv(), d.YAML())
 	res0, ref, err := writeDoc(d)
 	if err != nil {
-		if c.MayRefuse && res0.Exit != 0 && !res0.TimedOut && !res0.Crashed() {
+		if beyondDelta(d) && res0.Exit != 0 && !res0.TimedOut && !res0.Crashed() {
 			return nil
 		}
 		return vio("write-failed", "%v%s", err, ctx)
@@ -79,7 +79,7 @@ func checkC06(c C06Case) *Violation {
 		dn.Flags.Track = n
 		resn, song, err := writeDoc(dn)
 		if err != nil {
-			if c.MayRefuse && resn.Exit != 0 && !resn.TimedOut && !resn.Crashed() {
+			if beyondDelta(d) && resn.Exit != 0 && !resn.TimedOut && !resn.Crashed() {
 				continue // with more tracks the idle time of a track can exceed the limit although --track 1 fits
 			}
 			return vio("write-failed", "--track %d: %v%s", n, err, ctx)
